@@ -303,11 +303,12 @@ theorem forall₂_rowAt {e : Env} {cyc : Nat} {segs : List Seg} {ts : List Rat} 
         exact ⟨t', by simp [ht'], h'⟩
 
 /-- what one cycle can yield, under the runtime assumptions -/
-theorem cycleStep_spec (e : Env) (he : EnvOk e) (cyc : Nat) (mt : Rat) (hmt : 0 < mt) :
+theorem cycleStep_spec (e : Env) (he : EnvOk e) (cyc : Nat) (mt : Rat) (hmt : 0 < mt) (B : Rat)
+    (hB : mt ≤ B) (hevB : ∀ ev ∈ allEvals (e.integ cyc mt), ev.t ≤ B) :
     match cycleStep e cyc mt with
     | .done rs _ _ _ => GoodRows e.start e.cdim e.steps (specCtrl e) mt rs
     | .firstFail _ _ => True
-    | .retry mo me _ _ => (mo = .negInf ∨ ∃ q, mo = .fin q) ∧ (me = .posInf ∨ ∃ q, me = .fin q ∧ q ≤ mt)
+    | .retry mo me _ _ => (mo = .negInf ∨ ∃ q, mo = .fin q) ∧ (me = .posInf ∨ ∃ q, me = .fin q ∧ q ≤ B)
     | .stuck => False
     | .oob => False := by
   have hstop := he.integ_stops cyc mt
@@ -319,9 +320,9 @@ theorem cycleStep_spec (e : Env) (he : EnvOk e) (cyc : Nat) (mt : Rat) (hmt : 0 
     obtain ⟨isFin, fs, segs⟩ := res
     obtain ⟨evs, hev1, hinv, hfin⟩ := collect_spec _ _ _ _ hpre
       (fun ev hev => he.evals_prev cyc mt ev (by simp only [allEvals, List.mem_append]; exact Or.inr hev)) hcol
-    have hall : ∀ ev ∈ [] ++ (e.integ cyc mt).pre ++ evs, ev.t ≤ mt := by
+    have hall : ∀ ev ∈ [] ++ (e.integ cyc mt).pre ++ evs, ev.t ≤ B := by
       intro ev hev
-      apply he.evals_le cyc mt ev
+      apply hevB ev
       simp only [List.nil_append, List.mem_append] at hev
       simp only [allEvals, List.mem_append]
       rcases hev with hev | hev
@@ -329,7 +330,7 @@ theorem cycleStep_spec (e : Env) (he : EnvOk e) (cyc : Nat) (mt : Rat) (hmt : 0 
       · exact Or.inr (hev1 ev hev)
     -- the values the integrator leaves behind
     have hmo : fs.maxOk = .negInf ∨ ∃ q, fs.maxOk = .fin q := hinv.maxNum
-    have hme : fs.minErr = .posInf ∨ ∃ q, fs.minErr = .fin q ∧ q ≤ mt := by
+    have hme : fs.minErr = .posInf ∨ ∃ q, fs.minErr = .fin q ∧ q ≤ B := by
       cases hok : fs.isOk with
       | true => exact Or.inl (hinv.okCase hok).1
       | false =>
@@ -424,7 +425,7 @@ theorem cycleStep_spec (e : Env) (he : EnvOk e) (cyc : Nat) (mt : Rat) (hmt : 0 
                 · refine Or.inr ⟨tt, h2, ?_⟩
                   have hle := he.grid_le mt hmt
                   rw [hgrid] at hle
-                  exact hle tt (by simp [htt])
+                  exact le_trans (hle tt (by simp [htt])) hB
         · simp only [hr0, Bool.not_false, if_true]
     · simp only [hgate, Bool.false_eq_true, if_false]
       exact ⟨hmo, hme⟩
@@ -446,7 +447,7 @@ theorem runFrom_cycles (e : Env) (cycle : Nat) (mt : Rat) :
   | case8 cycle mt c mo me tag calls h first newMax info h4 hle hq => simp only [c]; omega
 
 
-/-- the next time limit is strictly below the current one -/
+/-- the next time limit is strictly below the current one if the error time is within the limit -/
 theorem newMax_lt (e : Env) (he : EnvOk e) (c : Nat) (mt : Rat) (hmt : 0 < mt) (mo me : V)
     (hmo : mo = .negInf ∨ ∃ q, mo = .fin q) (hme : me = .posInf ∨ ∃ q, me = .fin q ∧ q ≤ mt) :
     (if (decide (c < 3) && (mo.lt me && me.lt .posInf)) = true then e.shrink1 mo me
@@ -463,44 +464,72 @@ theorem newMax_lt (e : Env) (he : EnvOk e) (c : Nat) (mt : Rat) (hmt : 0 < mt) (
   · apply he.shrink2_lt mo mt _ hmt
     rcases hmo with h | ⟨q, h⟩ <;> simp [h]
 
+theorem V.le_of_lt' {a : V} {q : Rat} (h : a.lt (.fin q) = true) : a.le (.fin q) = true := by
+  rcases V.lt_fin_right h with h1 | ⟨r, h1, h2⟩
+  · simp [h1, V.le]
+  · simp only [h1, V.le, decide_eq_true_eq]; exact le_of_lt h2
+
+/-- the next time limit never exceeds the current one (error time at most one ulp above the limit) -/
+theorem newMax_le (e : Env) (he : EnvOk e) (c : Nat) (mt : Rat) (hmt : 0 < mt) (mo me : V)
+    (hmo : mo = .negInf ∨ ∃ q, mo = .fin q) (hme : me = .posInf ∨ ∃ q, me = .fin q ∧ q ≤ e.nextUp mt) :
+    (if (decide (c < 3) && (mo.lt me && me.lt .posInf)) = true then e.shrink1 mo me
+      else e.shrink2 mo (.fin mt)).le (.fin mt) = true := by
+  split
+  · rename_i h
+    simp only [Bool.and_eq_true] at h
+    rcases hme with hme | ⟨q, hme, hq⟩
+    · simp [hme, V.lt] at h
+    · subst hme
+      exact he.shrink1_up mo q mt hq
+  · apply V.le_of_lt'
+    apply he.shrink2_lt mo mt _ hmt
+    rcases hmo with h | ⟨q, h⟩ <;> simp [h]
+
+/-- the integrator never evaluates the right-hand side after `t_bound` (true for almost all
+recorded runs; in general only `≤ nextUp t_bound`) -/
+def EvalsWithin (e : Env) : Prop := ∀ c m, ∀ ev ∈ allEvals (e.integ c m), ev.t ≤ m
+
 theorem runFrom_spec (e : Env) (he : EnvOk e) (cycle : Nat) (mt : Rat) (hmt : 0 < mt) :
     0 < (runFrom e cycle mt).finalMax ∧ (runFrom e cycle mt).finalMax ≤ mt ∧
-    ((runFrom e cycle mt).trace.map (·.maxTime)).Pairwise (· > ·) ∧
+    ((runFrom e cycle mt).trace.map (·.maxTime)).Pairwise (· ≥ ·) ∧
     (∀ i ∈ (runFrom e cycle mt).trace, i.maxTime ≤ mt) ∧
+    (EvalsWithin e → ((runFrom e cycle mt).trace.map (·.maxTime)).Pairwise (· > ·)) ∧
     (match (runFrom e cycle mt).out with
       | .rows rs => GoodRows e.start e.cdim e.steps (specCtrl e) (runFrom e cycle mt).finalMax rs
       | .failure row => row = failRow e
       | _ => False) := by
   fun_induction runFrom e cycle mt with
   | case1 cycle mt c rs calls mo me h =>
-    have := cycleStep_spec e he c mt hmt
+    have := cycleStep_spec e he c mt hmt _ (he.up_ge mt) (he.evals_le c mt)
     rw [h] at this
-    exact ⟨hmt, le_refl _, by simp, by simp, this⟩
-  | case2 cycle mt c mo me h => exact ⟨hmt, le_refl _, by simp, by simp, rfl⟩
+    exact ⟨hmt, le_refl _, by simp, by simp, by simp, this⟩
+  | case2 cycle mt c mo me h => exact ⟨hmt, le_refl _, by simp, by simp, by simp, rfl⟩
   | case3 cycle mt c h =>
-    have := cycleStep_spec e he c mt hmt
+    have := cycleStep_spec e he c mt hmt _ (he.up_ge mt) (he.evals_le c mt)
     rw [h] at this; exact this.elim
   | case4 cycle mt c h =>
-    have := cycleStep_spec e he c mt hmt
+    have := cycleStep_spec e he c mt hmt _ (he.up_ge mt) (he.evals_le c mt)
     rw [h] at this; exact this.elim
-  | case5 cycle mt c mo me tag calls h first newMax info h4 => exact ⟨hmt, le_refl _, by simp, by simp [info], rfl⟩
-  | case6 cycle mt c mo me tag calls h first newMax info h4 hle => exact ⟨hmt, le_refl _, by simp, by simp [info], rfl⟩
+  | case5 cycle mt c mo me tag calls h first newMax info h4 =>
+    exact ⟨hmt, le_refl _, by simp, by simp [info], by simp, rfl⟩
+  | case6 cycle mt c mo me tag calls h first newMax info h4 hle =>
+    exact ⟨hmt, le_refl _, by simp, by simp [info], by simp, rfl⟩
   | case7 cycle mt c mo me tag calls h first newMax info h4 hle q hq r ih =>
-    have hs := cycleStep_spec e he c mt hmt
+    have hs := cycleStep_spec e he c mt hmt _ (he.up_ge mt) (he.evals_le c mt)
     rw [h] at hs
-    have hlt := newMax_lt e he c mt hmt mo me hs.1 hs.2
     have hnm : newMax = (if (decide (c < 3) && (mo.lt me && me.lt .posInf)) = true then e.shrink1 mo me
       else e.shrink2 mo (.fin mt)) := by simp only [newMax, first]; split <;> rfl
-    rw [← hnm, hq] at hlt
-    have hqmt : q < mt := by simpa [V.lt] using hlt
+    have hle' := newMax_le e he c mt hmt mo me hs.1 hs.2
+    rw [← hnm, hq] at hle'
+    have hqmt : q ≤ mt := by simpa [V.le] using hle'
     have hq0 : 0 < q := by
       rw [hq] at hle
       have : ¬ q ≤ TINY := by simpa [V.le] using hle
       have := TINY_pos
       linarith
-    obtain ⟨i1, i2, i3, i4, i5⟩ := ih hq0
+    obtain ⟨i1, i2, i3, i4, i5, i6⟩ := ih hq0
     simp only [r]
-    refine ⟨i1, by linarith, ?_, ?_, i5⟩
+    refine ⟨i1, by linarith, ?_, ?_, ?_, i6⟩
     · simp only [List.map_cons, List.pairwise_cons]
       refine ⟨fun t ht => ?_, i3⟩
       obtain ⟨i, hi, rfl⟩ := List.mem_map.mp ht
@@ -510,19 +539,30 @@ theorem runFrom_spec (e : Env) (he : EnvOk e) (cycle : Nat) (mt : Rat) (hmt : 0 
       rcases List.mem_cons.mp hi with hi | hi
       · subst hi; simp [info]
       · have := i4 i hi; linarith
+    · intro hw
+      have hs' := cycleStep_spec e he c mt hmt mt (le_refl _) (hw c mt)
+      rw [h] at hs'
+      have hlt := newMax_lt e he c mt hmt mo me hs'.1 hs'.2
+      rw [← hnm, hq] at hlt
+      have hqlt : q < mt := by simpa [V.lt] using hlt
+      simp only [List.map_cons, List.pairwise_cons]
+      refine ⟨fun t ht => ?_, i5 hw⟩
+      obtain ⟨i, hi, rfl⟩ := List.mem_map.mp ht
+      have := i4 i hi
+      simp only [info]; linarith
   | case8 cycle mt c mo me tag calls h first newMax info h4 hle hq =>
     exfalso
-    have hs := cycleStep_spec e he c mt hmt
+    have hs := cycleStep_spec e he c mt hmt _ (he.up_ge mt) (he.evals_le c mt)
     rw [h] at hs
-    have hlt := newMax_lt e he c mt hmt mo me hs.1 hs.2
+    have hle' := newMax_le e he c mt hmt mo me hs.1 hs.2
     have hnm : newMax = (if (decide (c < 3) && (mo.lt me && me.lt .posInf)) = true then e.shrink1 mo me
       else e.shrink2 mo (.fin mt)) := by simp only [newMax, first]; split <;> rfl
-    rw [← hnm] at hlt
-    rcases V.lt_fin_right hlt with h1 | ⟨r, h1, _⟩
-    · rw [h1] at hle; simp [V.le] at hle
-    · exact hq r h1
-
-
+    rw [← hnm] at hle'
+    cases hnv : newMax with
+    | fin r => exact hq r hnv
+    | nan => rw [hnv] at hle'; simp [V.le] at hle'
+    | posInf => rw [hnv] at hle'; simp [V.le] at hle'
+    | negInf => rw [hnv] at hle; simp [V.le] at hle
 
 /-! ### figure of merit: the cursor -/
 
